@@ -65,6 +65,19 @@ func init() {
 		if ex, ok := op["_expect"].(bool); ok {
 			truth(c, stream+".truth", regOp, ex)
 		}
+		// the same through an authentication ceremony
+		kp := genKeyPair(r, algES256)
+		as := newAuthSpec(r, rpOrigin, kp, r.Bytes(16), r.Bytes(8), kp.COSE(true))
+		as.RPID = hashed
+		if as.RPID == nil {
+			as.RPID = []byte{}
+		}
+		aop := buildAssertion(r, as)
+		aop["_dev"] = "rpid"
+		executors["authenticate"](c, stream+".auth", aop)
+		if ex, ok := op["_expect"].(bool); ok {
+			truthAuth(c, stream+".auth.truth", aop, ex)
+		}
 	}
 	rpOrigins := []string{"https://example.com", "https://example.com:8443", "http://example.com", "https://login.example.com", "https://localhost",
 		"https://192.168.1.10", "https://[2001:db8::1]", "https://[2001:db8::1]:8443", "https://intranet", "https://a.b", "https://EXAMPLE.com", "https://example.com.",
